@@ -34,7 +34,8 @@ CONFIG = {
 
 def draw_case(data, tier):
     d = data.draw(st.sampled_from([2, 2, 2, 3]), label="d")
-    opts = convgen.draw_conv_options(data, d, max_extra=3)
+    big = data.draw(st.integers(0, 9), label="big") == 0
+    opts = convgen.draw_conv_options(data, d, max_extra=12 if big else 3, max_ext=(20 if d == 2 else 8) if big else None)
     ktot = data.draw(st.sampled_from([0, 1, 1, 2, 2, 3] if d == 2 else [0, 1, 1, 2, 2]), label="ktot")
     k = data.draw(st.integers(0, ktot), label="k")
     kf = ktot - k
@@ -44,8 +45,8 @@ def draw_case(data, tier):
         case["B"], case["C"], case["O"] = 0, 1, 0
     else:
         case["B"] = data.draw(st.integers(1, 3), label="B")
-        case["C"] = data.draw(st.integers(1, 3), label="C")
-        case["O"] = data.draw(st.integers(1, 3), label="O")
+        case["C"] = data.draw(st.integers(1, 9 if big else 3), label="C")
+        case["O"] = data.draw(st.integers(1, 9 if big else 3), label="O")
     case["seed"] = data.draw(st.integers(0, 2**20), label="seed")
     cck = data.draw(st.integers(0, 2), label="cc_k")
     case["cc"] = [cck, cck + data.draw(st.integers(0, 2 if d == 2 else 1), label="cc_out_k")]
